@@ -1230,6 +1230,25 @@ func monitorMdi(line string, size float32, off f32.Vec2, outSize float32, paths 
 		if len(body) < 3*len(p.Circles) {
 			return bad(k, "circles missing")
 		}
+		// the path data itself, as spelled: absolute coordinates scaled by outSize/size and moved by -(outSize/2 + offset)
+		// PER AXIS (a lone H operand is an x, a lone V operand a y), relative ones only scaled
+		if p.D != "" {
+			sc := float64(outSize) / float64(size)
+			if want, ok := spellPath(p.D, wantAdj, sc, sc, -(float64(outSize)/2 + float64(off[0])), -(float64(outSize)/2 + float64(off[1]))); ok &&
+				len(want) > 0 && want[len(want)-1].name == "Z" && len(want)-1 == len(body)-3*len(p.Circles) {
+				for j, w := range want[:len(want)-1] {
+					gc := body[j]
+					if gc.Name != w.name || len(gc.F) != len(w.f) || gc.La != w.la || gc.Sw != w.sw {
+						return bad(k, fmt.Sprintf("path %q: call %d is %s, the path spells %s", p.D, j, gc.String(), w.name))
+					}
+					for q := range w.f {
+						if math.Abs(float64(gc.F[q])-w.f[q]) > 1e-4*(1+math.Abs(w.f[q])) {
+							return bad(k, fmt.Sprintf("path %q (size %g, offset %v, outSize %g): call %d (%s) operand %d = %g, expected %g", p.D, size, off, outSize, j, w.name, q, gc.F[q], w.f[q]))
+						}
+					}
+				}
+			}
+		}
 		tail := body[len(body)-3*len(p.Circles):]
 		for ci, c := range p.Circles {
 			cx := float64(c.Cx)*float64(outSize)/float64(size) - (float64(outSize)/2 + float64(off[0]))
